@@ -8,3 +8,17 @@ from .engines.values import gen_bytes
 def payload(n, kind, seed):
     """Pure function used as a Memory-cached function in C14."""
     return {"data": gen_bytes(n, kind, seed), "n": n, "tag": ("payload", n, kind, seed)}
+
+
+EXEC_COUNT = {"blob": 0, "blob2": 0}
+
+
+def blob(n, tag):
+    """C18: output of a drawn size."""
+    EXEC_COUNT["blob"] += 1
+    return bytes(n) + repr(("blob", n, tag)).encode()
+
+
+def blob2(n, tag):
+    EXEC_COUNT["blob2"] += 1
+    return bytes(n) + repr(("blob2", n, tag)).encode()
